@@ -396,43 +396,76 @@ impl<const K: usize> Write for FaultSink<K> {
     }
 }
 
-/// A mixed sequence of `write_all`, `write!` and `write` calls through CountingWrite: whenever all
-/// calls succeed, `bytes_written` equals the number of bytes the sink really accepted (this is what
-/// cross-reference offsets are computed from), for every chunking and transient interruption; if the
-/// sink fails, some call reports an error.
-#[kani::proof]
-#[kani::unwind(14)]
-fn c19_counting_write() {
-    let budget: usize = any_in(0, 12);
-    let chunk: usize = any_in(1, 4);
-    let kind: u8 = any_in(0, 1) as u8;
-    let interrupted_left: u8 = any_in(0, 1) as u8;
-    let interrupt_at: usize = any_in(0, 9);
-    let mut s = FaultSink::<16> { got: [0; 16], n: 0, budget, chunk, kind, interrupted_left, interrupt_at };
-    let data: [u8; 5] = kani::any();
-    let total = 5 + 3 + 1;
-    let (r1, r2, r3, bw);
+/// CountingWrite under a sink that accepts at most `chunk` bytes per call and `budget` bytes in
+/// total and then fails (KIND 0: hard Err, KIND 1: Ok(0)); INTR = one transient `Interrupted` at
+/// a symbolic offset.  Whenever all calls succeed, `bytes_written` equals the bytes the sink really
+/// accepted (this is what cross-reference offsets are computed from) and the bytes do not depend
+/// on the chunking; if the sink runs out, some call reports an error.
+fn counting_write_harness<const KIND: u8, const INTR: u8>() {
+    let budget: usize = any_in(0, 9);
+    let chunk: usize = any_in(1, 3);
+    let interrupt_at: usize = any_in(0, 6);
+    let mut s = FaultSink::<12> { got: [0; 12], n: 0, budget, chunk, kind: KIND, interrupted_left: INTR, interrupt_at };
+    let data: [u8; 4] = kani::any();
+    let total = 4 + 3;
+    let (r1, r2, bw);
     {
         let mut cw = CountingWrite { inner: &mut s, bytes_written: 0 };
         r1 = cw.write_all(&data);
         r2 = if r1.is_ok() { Write::write_all(&mut cw, b"abc") } else { Ok(()) };
-        r3 = if r1.is_ok() && r2.is_ok() { write!(cw, "{}", "x") } else { Ok(()) };
         bw = cw.bytes_written;
     }
-    let all_ok = r1.is_ok() && r2.is_ok() && r3.is_ok();
+    let all_ok = r1.is_ok() && r2.is_ok();
     if all_ok {
         assert!(bw == s.n, "bytes_written differs from the bytes the sink accepted");
         assert!(s.n == total);
-        assert!(s.got[0] == data[0] && s.got[4] == data[4] && s.got[5] == b'a' && s.got[8] == b'x', "bytes depend on chunking");
+        assert!(s.got[0] == data[0] && s.got[3] == data[3] && s.got[4] == b'a' && s.got[6] == b'c', "bytes depend on chunking");
     } else {
         assert!(budget < total, "error reported although the sink had room for everything");
     }
     if budget < total {
         assert!(!all_ok, "sink failure was swallowed");
     }
-    kani::cover!(all_ok && chunk == 1 && interrupted_left == 1 && interrupt_at == 3);
-    kani::cover!(!all_ok && kind == 1);
-    std::mem::forget((r1, r2, r3));
+    kani::cover!(all_ok && chunk == 1);
+    kani::cover!(!all_ok);
+    std::mem::forget((r1, r2));
+}
+#[kani::proof]
+#[kani::unwind(8)]
+fn c19_counting_write_hard_error() {
+    counting_write_harness::<0, 0>();
+}
+#[kani::proof]
+#[kani::unwind(8)]
+fn c19_counting_write_zero_write() {
+    counting_write_harness::<1, 0>();
+}
+#[kani::proof]
+#[kani::unwind(8)]
+fn c19_counting_write_interrupted() {
+    counting_write_harness::<0, 1>();
+}
+
+/// `write` (not write_all): the count follows the bytes the sink reports as accepted.
+#[kani::proof]
+#[kani::unwind(6)]
+fn c19_counting_write_partial() {
+    let budget: usize = any_in(0, 5);
+    let chunk: usize = any_in(1, 4);
+    let mut s = FaultSink::<8> { got: [0; 8], n: 0, budget, chunk, kind: 1, interrupted_left: 0, interrupt_at: 0 };
+    let data: [u8; 4] = kani::any();
+    let (r, bw);
+    {
+        let mut cw = CountingWrite { inner: &mut s, bytes_written: 0 };
+        r = Write::write(&mut cw, &data);
+        bw = cw.bytes_written;
+    }
+    match &r {
+        Ok(n) => assert!(*n == s.n && bw == s.n, "bytes_written differs from what the sink accepted"),
+        Err(_) => panic!("this sink never fails hard"),
+    }
+    kani::cover!(s.n == 2);
+    std::mem::forget(r);
 }
 
 /// Model of `<[usize]>::contains` (std's chunked/SIMD-friendly implementation is encoded very
@@ -528,16 +561,15 @@ fn ref_read_xref_table<const IDS: usize>(s: &[u8], seen: &mut [u8; IDS], offs: &
     pos == s.len()
 }
 
-/// write_xref for every subset of in-use objects among ids 1..=MAXID (gaps of every width):
+/// write_xref for one concrete subset (bit k of MASK = object k is in use) of ids 1..=MAXID:
 /// a strict 7.5.4 reader finds object 0 free, exactly the in-use ids with their own offsets, and
-/// no other in-use entry.
-fn write_xref_harness<const MAXID: usize, const IDS: usize, const K: usize>() {
-    let present: [bool; IDS] = kani::any();
+/// no other in-use entry.  Offsets are symbolic only in their low digit (keeps `{:>010}` formatting cheap).
+fn write_xref_case<const MAXID: usize, const IDS: usize, const K: usize>(mask: u32, lowdigit: u32) {
     let mut xref = Xref::new(MAXID as u32 + 1, XrefType::CrossReferenceTable);
     let mut id = 1;
     while id <= MAXID {
-        if present[id] {
-            xref.insert(id as u32, XrefEntry::Normal { offset: 100 + id as u32, generation: 0 });
+        if (mask >> id) & 1 == 1 {
+            xref.insert(id as u32, XrefEntry::Normal { offset: 100 * id as u32 + lowdigit, generation: 0 });
         }
         id += 1;
     }
@@ -551,41 +583,65 @@ fn write_xref_harness<const MAXID: usize, const IDS: usize, const K: usize>() {
     assert!(seen[0] == 2, "object 0 must be listed as free");
     let mut id = 1;
     while id <= MAXID {
-        if present[id] {
-            assert!(seen[id] == 1 && offs[id] == 100 + id as u32, "in-use object has no entry with its own offset");
+        if (mask >> id) & 1 == 1 {
+            assert!(seen[id] == 1 && offs[id] == 100 * id as u32 + lowdigit, "in-use object has no entry with its own offset");
         } else {
             assert!(seen[id] != 1, "entry marks a non-existent object as in use");
         }
         id += 1;
     }
-    kani::cover!(present[1] && !present[2] && !present[3] && present[4]);
-    kani::cover!(!present[1] && present[MAXID]);
     std::mem::forget(r);
     std::mem::forget(xref);
 }
+/// All 16 subsets of ids 1..=4 (every gap width 0..=3 before, between and after entries).
 #[kani::proof]
 #[kani::unwind(24)]
-fn c03_write_xref_4() {
-    write_xref_harness::<4, 5, 140>();
+fn c03_write_xref_subsets4() {
+    let lowdigit: u32 = kani::any();
+    kani::assume(lowdigit <= 9);
+    let mut m = 0u32;
+    while m < 16 {
+        write_xref_case::<4, 5, 140>(m << 1, lowdigit);
+        m += 1;
+    }
+    kani::cover!(lowdigit == 9);
 }
+/// Selected subsets of ids 1..=6 with wide gaps.
 #[kani::proof]
 #[kani::unwind(24)]
-fn c03_write_xref_6() {
-    write_xref_harness::<6, 7, 200>();
+fn c03_write_xref_gaps6() {
+    let lowdigit: u32 = kani::any();
+    kani::assume(lowdigit <= 9);
+    write_xref_case::<6, 7, 200>(0b1000010, lowdigit); // {1, 6}
+    write_xref_case::<6, 7, 200>(0b0100100, lowdigit); // {2, 5}
+    write_xref_case::<6, 7, 200>(0b1000000, lowdigit); // {6}
+    write_xref_case::<6, 7, 200>(0b1110010, lowdigit); // {1, 4, 5, 6}
+    kani::cover!(lowdigit == 0);
 }
 
 /// create_xref_steam: W [1 4 2] rows and Index pairs for every subset of in-use objects among 1..=4
 /// (the size passed by the caller is max_id + 1 and the stream's own id is max_id + 1 as well).
 #[kani::proof]
-#[kani::unwind(12)]
+#[kani::unwind(16)]
 fn c03_xref_stream_rows() {
+    let lowbyte: u32 = kani::any();
+    kani::assume(lowbyte <= 255);
+    let mut m = 0u32;
+    while m < 16 {
+        xref_stream_rows_case(m << 1, lowbyte);
+        m += 1;
+    }
+    kani::cover!(lowbyte == 255);
+}
+fn xref_stream_rows_case(mask: u32, lowbyte: u32) {
     const MAXID: usize = 4;
-    let present: [bool; 6] = kani::any();
+    let mut present = [false; 6];
     let mut xref = Xref::new(MAXID as u32 + 1, XrefType::CrossReferenceStream);
     let mut id = 1;
     while id <= MAXID {
+        present[id] = (mask >> id) & 1 == 1;
         if present[id] {
-            xref.insert(id as u32, XrefEntry::Normal { offset: 1000 + id as u32, generation: 0 });
+            xref.insert(id as u32, XrefEntry::Normal { offset: 1000 * id as u32 + lowbyte, generation: 0 });
         }
         id += 1;
     }
@@ -625,7 +681,7 @@ fn c03_xref_stream_rows() {
                     listed[id] = true;
                     assert!(b[0] == 1, "in-use row must have type 1");
                     if id <= MAXID {
-                        assert!(present[id] && off == 1000 + id as u32, "row does not carry the object's own offset");
+                        assert!(present[id] && off == 1000 * id as u32 + lowbyte, "row does not carry the object's own offset");
                     } else {
                         assert!(off == 7777, "self entry of the cross-reference stream is wrong");
                     }
@@ -644,7 +700,145 @@ fn c03_xref_stream_rows() {
         }
         Err(_) => panic!("create_xref_steam failed"),
     }
-    kani::cover!(present[1] && !present[2] && present[3] && !present[4]);
     std::mem::forget(r);
     std::mem::forget(xref);
+}
+
+// ---- indirect object framing (7.3.10) and offset recording -----------------------------------------
+/// `write_indirect_object` for a scalar object: exact framing "<id> <gen> obj\n <value> \nendobj\n"
+/// (scalars need a separator on both sides), the xref entry records the offset at which the object
+/// header starts (= bytes written before) and the generation.
+#[kani::proof]
+#[kani::unwind(14)]
+fn c03_indirect_object_scalar() {
+    let id: u32 = kani::any();
+    let generation: u16 = kani::any();
+    let pre: usize = kani::any();
+    kani::assume(pre <= 1000);
+    let which: u8 = kani::any();
+    let bval: bool = kani::any();
+    let obj = match which % 3 {
+        0 => Object::Null,
+        1 => Object::Boolean(bval),
+        _ => Object::Integer(7),
+    };
+    let mut sink = ArrSink::<48>::new();
+    let mut xref = Xref::new(0, XrefType::CrossReferenceTable);
+    let r;
+    let after;
+    {
+        let mut sref = &mut sink;
+        let mut cw = CountingWrite { inner: &mut sref, bytes_written: pre };
+        r = Writer::write_indirect_object(&mut cw, id, generation, &obj, &mut xref);
+        after = cw.bytes_written;
+    }
+    assert!(r.is_ok());
+    let out = sink.out();
+    assert!(after == pre + out.len(), "bytes_written does not advance by the bytes produced");
+    // header: decimal id, space, decimal generation, " obj\n"
+    let mut pos = 0;
+    let got_id = read_uint(out, &mut pos);
+    assert!(got_id == Some(id) || id > 999_999_999, "object number does not read back");
+    if id <= 999_999_999 {
+        assert!(pos < out.len() && out[pos] == b' ');
+        pos += 1;
+        let got_gen = read_uint(out, &mut pos);
+        assert!(got_gen == Some(generation as u32), "generation does not read back");
+        assert!(pos + 5 <= out.len() && out[pos] == b' ' && out[pos + 1] == b'o' && out[pos + 2] == b'b' && out[pos + 3] == b'j' && out[pos + 4] == b'\n', "'obj' keyword framing");
+        pos += 5;
+        // scalar values are separated from the keyword line and from endobj
+        assert!(pos < out.len() && out[pos] == b' ', "scalar object must be preceded by a separator");
+        let n = out.len();
+        assert!(n >= 9 && out[n - 1] == b'\n' && out[n - 2] == b'j' && out[n - 3] == b'b' && out[n - 4] == b'o' && out[n - 5] == b'd' && out[n - 6] == b'n' && out[n - 7] == b'e' && out[n - 8] == b'\n', "'endobj' framing");
+        assert!(out[n - 9] == b' ', "scalar object must be followed by a separator");
+    }
+    match xref.get(id) {
+        Some(XrefEntry::Normal { offset, generation: g }) => {
+            assert!(*offset == pre as u32, "xref entry does not hold the offset of the object header");
+            assert!(*g == generation, "xref entry does not hold the generation");
+        }
+        _ => panic!("write_indirect_object did not record an in-use entry"),
+    }
+    kani::cover!(which % 3 == 1 && id > 100000 && generation > 100);
+    std::mem::forget(r);
+    std::mem::forget(xref);
+}
+
+// ---- stream body framing under a chunking sink (C19 / C03) ----------------------------------------
+/// `write_stream` to a sink that accepts at most `chunk` bytes per call (never fails): the bytes
+/// delivered are exactly "<<>>stream\n" + content + "\nendstream" whatever the chunking, i.e. the
+/// stream body is written with write_all semantics and exactly Length bytes lie between the
+/// `stream` EOL and `endstream`.
+#[kani::proof]
+#[kani::unwind(14)]
+fn c19_write_stream_chunked() {
+    let chunk: usize = any_in(1, 3);
+    let content: [u8; 3] = kani::any();
+    let mut s = FaultSink::<40> { got: [0; 40], n: 0, budget: 1000, chunk, kind: 0, interrupted_left: 0, interrupt_at: 0 };
+    let stream = Stream { dict: Dictionary::new(), content: content.to_vec(), allows_compression: true, start_position: None };
+    let r = Writer::write_stream(&mut s, &stream);
+    assert!(r.is_ok());
+    let exp_head = b"<<>>stream\n";
+    let exp_tail = b"\nendstream";
+    assert!(s.n == exp_head.len() + 3 + exp_tail.len(), "stream framing has the wrong length (bytes lost or duplicated under short writes)");
+    let mut i = 0;
+    while i < exp_head.len() {
+        assert!(s.got[i] == exp_head[i], "stream header bytes differ");
+        i += 1;
+    }
+    assert!(s.got[11] == content[0] && s.got[12] == content[1] && s.got[13] == content[2], "stream body bytes differ under chunked writes");
+    let mut i = 0;
+    while i < exp_tail.len() {
+        assert!(s.got[14 + i] == exp_tail[i], "stream trailer bytes differ");
+        i += 1;
+    }
+    kani::cover!(chunk == 1);
+    kani::cover!(chunk == 3);
+    std::mem::forget(r);
+    std::mem::forget(stream);
+}
+
+// ---- token separators (7.2.2): need_separator / need_end_separator vs what write_object emits -----
+/// Two adjacent tokens must be separated by white space unless one of the touching bytes is a
+/// delimiter.  write_array / write_dictionary / write_indirect_object rely on need_separator(x)
+/// ("x starts with a regular character") and need_end_separator(x) ("x ends with one").
+fn separator_harness(obj: &Object) {
+    let mut sink = ArrSink::<24>::new();
+    let r = Writer::write_object(&mut sink, obj);
+    assert!(r.is_ok());
+    let out = sink.out();
+    assert!(out.len() >= 1);
+    if is_regular(out[0]) {
+        assert!(Writer::need_separator(obj), "object starts with a regular character but need_separator says no: it would merge with a preceding name/number/keyword");
+    }
+    if is_regular(out[out.len() - 1]) {
+        assert!(Writer::need_end_separator(obj), "object ends with a regular character but need_end_separator says no: it would merge with a following keyword");
+    }
+    std::mem::forget(r);
+}
+#[kani::proof]
+#[kani::unwind(12)]
+fn c01_separator_scalars() {
+    let which: u8 = kani::any();
+    let b: bool = kani::any();
+    let i: i16 = kani::any();
+    let id: u8 = kani::any();
+    let obj = match which % 4 {
+        0 => Object::Null,
+        1 => Object::Boolean(b),
+        2 => Object::Integer(i as i64),
+        _ => Object::Reference((id as u32, 0)),
+    };
+    separator_harness(&obj);
+    kani::cover!(which % 4 == 3);
+    kani::cover!(which % 4 == 0);
+}
+#[kani::proof]
+#[kani::unwind(20)]
+fn c01_separator_name() {
+    let n: u8 = kani::any();
+    let obj = Object::Name(vec![n]);
+    separator_harness(&obj);
+    kani::cover!(n == b'A');
+    std::mem::forget(obj);
 }
